@@ -8,6 +8,24 @@ fn field(meta: u128, left: usize) -> usize {
     ((meta >> ((7 - left) * 12)) & 0xFFF) as usize
 }
 
+/// bits z..n are ones, everything else zero - computed at compile time so that set-up needs no unwinding
+const fn pattern_words<const NW: usize>(z: usize, n: usize) -> [u64; NW] {
+    let mut words = [0u64; NW];
+    let mut wi = 0;
+    while wi < NW {
+        let mut b = 0;
+        while b < 64 {
+            let p = 64 * wi + b;
+            if p >= z && p < n {
+                words[wi] |= 1u64 << b;
+            }
+            b += 1;
+        }
+        wi += 1;
+    }
+    words
+}
+
 fn assemble(meta: &[u128], s0: &[usize], s1: &[usize], bv: BitVector, n_zeros: usize) -> RSWide {
     RSWide {
         bv,
@@ -194,7 +212,7 @@ macro_rules! wide_rank_law {
                 assert!(g.is_none() && r.is_none() && rs.rank0(i).is_none());
             }
             assert!(rs.rank1(0) == Some(0));
-            kani::cover!(i + 1 == n, "last position");
+            kani::cover!(i.wrapping_add(1) == n, "last position");
             kani::cover!(i == usize::MAX, "largest position");
             core::mem::forget(rs);
         }
@@ -254,22 +272,14 @@ macro_rules! wide_concrete {
         fn $name() {
             const N: usize = $n;
             const Z: usize = $z;
+            const WORDS: [u64; 8 * $l] = pattern_words::<{ 8 * $l }>($z, $n);
             let mut lines: Vec<crate::bitvector::DataLine> = Vec::with_capacity($l);
             let mut l = 0;
             while l < $l {
                 let mut dl = crate::bitvector::DataLine::default();
                 let mut k = 0;
                 while k < 8 {
-                    let lo = 512 * l + 64 * k;
-                    let mut w = 0u64;
-                    let mut b = 0;
-                    while b < 64 {
-                        if lo + b >= Z && lo + b < N {
-                            w |= 1u64 << b;
-                        }
-                        b += 1;
-                    }
-                    dl.words[k] = w;
+                    dl.words[k] = WORDS[8 * l + k];
                     k += 1;
                 }
                 lines.push(dl);
@@ -299,7 +309,7 @@ macro_rules! wide_concrete {
             } else {
                 assert!(s0.is_none());
             }
-            kani::cover!(k + 1 == N - Z, "last one selected");
+            kani::cover!(k.wrapping_add(1) == N - Z, "last one selected");
             kani::cover!(i == N, "rank at the end");
             core::mem::forget(rs);
         }
@@ -308,15 +318,15 @@ macro_rules! wide_concrete {
 // @h props=C06,C04,C03:t tier=quick family=T mem=6 timeout=1800 stubs=utils::select_in_word->contract role=rswide.concrete.zeros_then_ones
 // @bound RSWide::new on 700 zeros followed by 2400 ones (3100 bits = 7 lines: block counters above 2047), rank position and select index symbolic over the machine range
 // @funcs RSWide::new, RSWide::rank1, RSWide::rank0, RSWide::select1, RSWide::select0, RSWide::sub_block_rank, bitvector::DataLine::rank1, bitvector::DataLine::select1_unchecked
-wide_concrete!(c06_wide_concrete_z700_n3100, 7, 3100, 700, 70);
+wide_concrete!(c06_wide_concrete_z700_n3100, 7, 3100, 700, 12);
 // @h props=C06,C04 tier=quick family=T mem=6 timeout=1800 stubs=utils::select_in_word->contract role=rswide.concrete.two_superblocks
 // @bound RSWide::new on 4100 zeros followed by 600 ones (4700 bits = 10 lines, two superblocks), queries symbolic
 // @funcs RSWide::new, RSWide::rank1, RSWide::select1, RSWide::select0
-wide_concrete!(c06_wide_concrete_z4100_n4700, 10, 4700, 4100, 70);
+wide_concrete!(c06_wide_concrete_z4100_n4700, 10, 4700, 4100, 14);
 // @h props=C06 tier=thorough family=T mem=5 timeout=3600 stubs=utils::select_in_word->contract role=rswide.concrete.hint_period
 // @bound RSWide::new on the all-ones vector of 8704 bits (17 lines: more than 8192 ones, two hint periods), queries symbolic
 // @funcs RSWide::new, RSWide::rank1, RSWide::select1, RSWide::select0
-wide_concrete!(c06_wide_concrete_ones8704, 17, 8704, 0, 70);
+wide_concrete!(c06_wide_concrete_ones8704, 17, 8704, 0, 21);
 
 // @h props=C06,C04,C03:t tier=quick family=E mem=5 timeout=1200 role=rswide.empty
 // @bound empty and Default RSWide: every query with arguments over the machine range gives no position and no non-zero count
